@@ -13,6 +13,9 @@ from __future__ import annotations
 
 import collections
 import copy
+import os
+import shutil
+import tempfile
 
 import pfimport  # noqa: F401
 from pfimport import exc_enum
@@ -34,11 +37,15 @@ RULE = ("sessions on random DAGs of 1-6 term-building functions (nullary, tuple 
         "a listed argument combination cutting through intermediates; whole-tuple requests), inside 0-2 construct_dag() blocks (several "
         "calls per block share nodes through the block's cache), each returned object evaluated 1 or 3 times in a random interleaving; "
         "a malformed stream (surplus / missing keyword, unknown output, output as keyword) ends a session; container-subclass inputs and "
-        "lazy objects as inputs are separate streams; a session is non-trivial when some call node has a lazy argument; distinct by "
-        "(pipeline, ops)")
-ASSUMPTIONS = ["the lazy pipeline has no cache of its own (cache_type=None, no cache=True function): the only cache is construct_dag()'s",
-               "inside one construct_dag() block the generated calls supply root arguments only, with one value per name (the block's cache "
-               "key is the root-argument values: DESIGN DF-18(a) is C09's)",
+        "lazy objects as inputs are separate streams; 30 % of the sessions give the lazy pipeline a cache of its own (cache_type x cache=True "
+        "flags), calls that share a block or a cache use the same / another value per keyword or cut through intermediates; per evaluate() the "
+        "nodes whose _evaluated flag flips are compared with the call log and with the object's dependency closure; further streams: two "
+        "pipelines (lazy+lazy, lazy+eager) in one block, Pipeline.func / full_output, map / NestedPipeFunc / containers of containers (crash-only); "
+        "a session is non-trivial when some call node has a lazy argument; distinct by (pipeline, ops)")
+ASSUMPTIONS = ["the pipeline's own cache (cache_type None/simple/lru/hybrid/disk x cache=True on none/some/all functions) is modelled below its size "
+               "limit (an unbounded most-recent-first list); what a refused call leaves in it is not modelled",
+               "the theorems' hypothesis PF.PipeCache.WF (unique outputs, consistent defaults, acyclic) is evaluated by the driver on every case",
+               "several pipelines in one construct_dag() block, Pipeline.func / full_output / map / NestedPipeFunc are checked on the implementation only",
                "lazy objects nested in user containers (evaluate_lazy/add_edge container recursion) are checked on the implementation only; "
                "the model's arguments are flat (a value or a node id)",
                "values are uninterpreted terms; user functions do not raise",
@@ -88,15 +95,40 @@ def closure(objs):
     return seen
 
 
+_TMP = {"dir": None, "n": 0}
+
+
+def _fresh_dir():
+    """a fresh directory (below the run's one temporary directory) for a DiskCache"""
+    if _TMP["dir"] is None:
+        _TMP["dir"] = tempfile.mkdtemp(prefix="verif-c18-")
+    _TMP["n"] += 1
+    d = os.path.join(_TMP["dir"], f"disk{_TMP['n']}")
+    os.makedirs(d, exist_ok=True)
+    return d
+
+
+def _cleanup_tmp():
+    if _TMP["dir"] is not None:
+        shutil.rmtree(_TMP["dir"], ignore_errors=True)
+        _TMP["dir"] = None
+
+
 def run_session(desc, ops, cache=None):
     """Run one session on the real pipefunc.  Returns the observation; never raises because pipefunc misbehaves.
-    `cache` = {"cache_type": ..., "cached": [function names]} gives the lazy pipeline a cache of its own."""
+    `cache` = {"cache_type": None|"simple"|"lru"|"hybrid"|"disk", "cached": [function names]} gives the lazy pipeline a cache of
+    its own (`cache_type=None` with a cached function makes pipefunc create an LRU cache)."""
     ldesc = desc
     pipeline_kwargs = {}
     if cache:
         ldesc = {"funcs": [dict(f, cache=(f["name"] in cache["cached"])) for f in desc["funcs"]]}
         pipeline_kwargs = {"cache_type": cache["cache_type"]}
-    p, log = pipegen.build(ldesc, lazy=True, **pipeline_kwargs)
+        if cache["cache_type"] == "disk":
+            pipeline_kwargs["cache_kwargs"] = {"cache_dir": _fresh_dir()}
+    import warnings
+    with warnings.catch_warnings():
+        warnings.simplefilter("ignore")          # lazy + hybrid warns that the duration is that of creating the wrapper
+        p, log = pipegen.build(ldesc, lazy=True, **pipeline_kwargs)
     pe, elog = pipegen.build(desc)
     # the eager reference, computed up front: an eager call made inside a construct_dag() block would go through the block's cache too
     eagers = {}
@@ -111,6 +143,7 @@ def run_session(desc, ops, cache=None):
                 eagers[i] = {"err": exc_enum(e)}
     base = _LazyFunction._counter
     obs, handles, table = [], [], {}
+    known = {}                 # every `_LazyFunction` reachable from a returned object, by id
     cm = None
     tg = None
     block_objs = []
@@ -146,6 +179,7 @@ def run_session(desc, ops, cache=None):
                 pykw = {k: terms.dec(v) for k, v in op["kw"]}
                 before = len(log.names())
                 eager = eagers[opi]
+                flags0 = {i: lf._evaluated for i, lf in known.items()}
                 try:
                     r = pipegen.quiet(p, out, **pykw)
                 except Exception as e:  # noqa: BLE001
@@ -159,15 +193,28 @@ def run_session(desc, ops, cache=None):
                     block_objs.append(r)
                     for i, lf in closure([r]).items():
                         table[i - base] = node_desc(lf, base)
+                        known[i] = lf
+                    # nothing may be evaluated by a request: no `_evaluated` flag (of an older or a new node) may be set by it
+                    o["evaluated_by_request"] = sorted(i - base for i, lf in known.items() if lf._evaluated and not flags0.get(i, False))
                 else:
                     o["ret"] = {"val": terms.enc(r)}
                 obs.append(o)
             elif kind == "eval":
                 r = handles[op["h"]]
                 before = len(log.names())
+                flags = {i: lf._evaluated for i, lf in known.items()}
+                need = closure([r]) if isinstance(r, _LazyFunction) else {}
                 try:
                     v = pipegen.quiet(r.evaluate)
-                    obs.append({"value": terms.enc(v), "log": log.names(), "new": log.names()[before:]})
+                    flipped = [i for i, lf in known.items() if lf._evaluated and not flags[i]]
+                    obs.append({"value": terms.enc(v), "log": log.names(), "new": log.names()[before:],
+                                # per node: the user functions of the nodes this evaluate() evaluated, the needed nodes it left
+                                # unevaluated, the nodes it evaluated without need
+                                "flipped": sorted(known[i].func.__name__ for i in flipped if isinstance(known[i].func, PipeFunc)),
+                                "left": sorted(i - base for i, lf in need.items() if not lf._evaluated),
+                                "needless": sorted(i - base for i in flipped if i not in need),
+                                "was_needed": sorted(lf.func.__name__ for i, lf in need.items()
+                                                     if isinstance(lf.func, PipeFunc) and not flags.get(i, False))})
                 except Exception as e:  # noqa: BLE001
                     obs.append({"err": exc_enum(e), "log": log.names()})
             else:
@@ -175,7 +222,13 @@ def run_session(desc, ops, cache=None):
     finally:
         if cm is not None:
             cm.__exit__(None, None, None)
-    return {"ops": obs, "table": [[i, table[i]] for i in sorted(table)]}
+    own = None
+    if p.cache is not None:
+        try:
+            own = len(p.cache)
+        except Exception as e:  # noqa: BLE001
+            own = exc_enum(e)
+    return {"ops": obs, "table": [[i, table[i]] for i in sorted(table)], "own": own}
 
 
 # ------------------------------------------------------------------------------------------------ model side
@@ -195,7 +248,7 @@ def model_session(r):
     for i, n in enumerate(r["table"]):
         table.append([i, {"kind": n["kind"], "f": n["f"],
                           "args": [a if "ref" in a else {"val": terms.canon(a["val"])} for a in n["args"]]}])
-    return {"ops": ops, "table": table}
+    return {"ops": ops, "table": table, "own": r.get("own")}
 
 
 # ------------------------------------------------------------------------------------------------ generation
@@ -214,13 +267,29 @@ def gen_ops(ctx, rng, desc, p, roots_only=False):
         combos = sorted(p.arg_combinations(o))
         return [[k, kwval(k)] for k in rng.choice(combos)]
 
+    def block_kw(o):
+        """keyword arguments of a call that shares a block (or a pipeline cache) with other calls: mostly the root arguments with the one
+        value per name, sometimes ANOTHER value for some name (another key: nothing may be shared), sometimes a cut through intermediates
+        (no key at all: `_intermediate_supplied`)"""
+        u = rng.random()
+        if u < 0.2 and isinstance(o, str) and not roots_only:
+            ctx.count("block-kw:cut")
+            return combo_kw(o)
+        kw = roots_kw(o)
+        if u < 0.45 and kw:
+            ctx.count("block-kw:other-value")
+            i = rng.randrange(len(kw))
+            kw = [list(x) for x in kw]
+            kw[i][1] = {"s": f"kw2:{kw[i][0]}"}
+        return kw
+
     def pick_out():
         if tuples and rng.random() < 0.15:
             return list(rng.choice(tuples))
         return rng.choice(outs)
 
     ops, ncalls = [], 0
-    shape = rng.choice(["plain", "plain", "dag1", "dag1", "dagN", "dagN", "dag2", "mixed", "dagEval", "dagEval"])
+    shape = rng.choice(["plain", "plain", "dag1", "dag1", "dagN", "dagN", "dag2", "mixed", "dagEval", "dagEval", "repeat", "repeat"])
     ctx.count(f"shape:{shape}")
 
     def call(o, kw):
@@ -245,7 +314,7 @@ def gen_ops(ctx, rng, desc, p, roots_only=False):
         hs.append(call(first, roots_kw(first)))
         for _ in range(rng.choice([1, 2, 3])):
             o = first if rng.random() < 0.4 else pick_out()
-            hs.append(call(o, roots_kw(o)))
+            hs.append(call(o, block_kw(o)))
         ops.append({"op": "exit"})
     elif shape == "dagEval":
         # inside ONE block: request, evaluate an earlier object, request something that shares its nodes (the edges into the later
@@ -257,8 +326,23 @@ def gen_ops(ctx, rng, desc, p, roots_only=False):
             if rng.random() < 0.7:
                 ops.append({"op": "eval", "h": rng.choice(hs)})
             o = pick_out()
-            hs.append(call(o, roots_kw(o)))
+            hs.append(call(o, block_kw(o)))
         ops.append({"op": "exit"})
+    elif shape == "repeat":
+        # the same output requested again and again, outside or inside one block, evaluations in between: a pipeline with a cache
+        # of its own answers the later requests from the cache
+        inside = rng.random() < 0.4
+        if inside:
+            ops.append({"op": "enter"})
+        o = pick_out()
+        kw = roots_kw(o)
+        for i in range(rng.choice([2, 3, 4])):
+            oi = o if rng.random() < 0.7 else pick_out()
+            hs.append(call(oi, kw if oi == o and rng.random() < 0.7 else block_kw(oi)))
+            if rng.random() < 0.5:
+                ops.append({"op": "eval", "h": rng.choice(hs)})
+        if inside:
+            ops.append({"op": "exit"})
     elif shape == "dag2":
         o = pick_out()
         for _ in range(2):
@@ -357,6 +441,8 @@ def judge(ctx, case, impl, model):
             handles.append(ob)
             if ob.get("invoked"):
                 bad(f"functions {ob['invoked']} were invoked by the lazy call itself, before evaluate()")
+            elif ob.get("evaluated_by_request"):
+                bad(f"nodes {ob['evaluated_by_request']} were evaluated by the lazy call itself, before evaluate()")
             first_in_scope = ((not in_block) or calls_in_block == 0) and not (case.get("cache") and len(handles) > 1)
             calls_in_block += 1
             if "err" in ob or "err" in ob["eager"]:
@@ -374,8 +460,17 @@ def judge(ctx, case, impl, model):
             eager = h["eager"]
             if "value" in eager and ob["value"] != eager["value"]:
                 bad("evaluate() differs from the value the eager pipeline returns")
-            if len(set(ob["new"])) != len(ob["new"]):
+            if len(set(ob["new"])) != len(ob["new"]) and len(set(ob["flipped"])) == len(ob["flipped"]):
                 bad(f"evaluate() invoked a function more than once: {ob['new']}")
+            if sorted(ob["new"]) != ob["flipped"]:
+                bad(f"evaluate() invoked {sorted(ob['new'])} but the nodes it evaluated are those of {ob['flipped']}: "
+                    f"each node's function must run exactly once")
+            elif ob["left"]:
+                bad(f"evaluate() returned although the nodes {ob['left']} it depends on are not evaluated")
+            elif ob["needless"]:
+                bad(f"evaluate() evaluated the nodes {ob['needless']}, which the object does not depend on")
+            elif ob["flipped"] != ob["was_needed"]:
+                bad(f"evaluate() evaluated the nodes of {ob['flipped']}; needed and not yet evaluated were those of {ob['was_needed']}")
             if "calls" in eager and not set(ob["new"]) <= set(eager["calls"]):
                 bad(f"evaluate() invoked {sorted(set(ob['new']) - set(eager['calls']))}, which the eager call does not need")
             if h.get("evaluated"):
@@ -439,6 +534,9 @@ def compare(case, impl, model):
                     diffs.append(f"op {i}: evaluate() value differs from the model")
                 if a["log"] != b["log"]:
                     diffs.append(f"op {i}: call log {a['log']} vs model {b['log']}")
+    # (what a refused call leaves in the cache is not modelled: such a call ends the modelled session)
+    if impl.get("own") != model.get("own") and not any("err" in o for o in impl["ops"]):
+        diffs.append(f"the pipeline's own cache holds {impl.get('own')} entries, model {model.get('own')}")
     mt = dict((i, n) for i, n in model["table"])
     for i, n in impl["table"]:
         if mt.get(i) != n:
@@ -446,8 +544,18 @@ def compare(case, impl, model):
     return diffs
 
 
+def model_request(c):
+    a = {"funcs": c["funcs"], "ops": close_blocks(c["ops"])}
+    if c.get("cache"):
+        cached = [f["outputs"] for f in c["funcs"] if f["name"] in c["cache"]["cached"]]
+        # `Pipeline.__init__`: `cache_type=None` with a `cache=True` function means an LRU cache
+        a["own"] = c["cache"]["cache_type"] is not None or bool(cached)
+        a["cached"] = cached
+    return {"m": "session", "a": a}
+
+
 def check_sessions(ctx, cases):
-    reqs = [{"m": "session", "a": {"funcs": c["funcs"], "ops": close_blocks(c["ops"])}} for c in cases]
+    reqs = [model_request(c) for c in cases]
     impls = []
     for c in cases:
         try:
@@ -466,7 +574,8 @@ def check_sessions(ctx, cases):
         if c.get("cache"):
             # a pipeline with its own cache shares nodes between calls by design: no call is known to be fresh (exact call sets are not demanded);
             # the model (no own cache) does not apply, the property's clauses do
-            ctx.count(f"own-cache:{c['cache']['cache_type']}")
+            ctx.count(f"own-cache:{c['cache']['cache_type']}:"
+                      f"{'all' if len(c['cache']['cached']) == len(c['funcs']) else 'some' if c['cache']['cached'] else 'none'}")
         else:
             mark_fresh(c["ops"], impl)
         nontrivial = any(n["kind"] == "call" and any("ref" in a for a in n["args"]) for _, n in impl["table"])
@@ -487,7 +596,9 @@ def check_sessions(ctx, cases):
         viol = judge(ctx, c, impl, model)
         for w in viol[:2]:
             ctx.violation(c, w, impl=impl, model=model)
-        if not viol and not c.get("cache"):
+        if not resp["r"].get("wf", True) or not resp["r"].get("roots_ok", True):
+            raise AssertionError("a generated pipeline does not satisfy the theorems' well-formedness hypothesis (generator bug?)")
+        if not viol:
             diffs = compare(c, impl, model)
             if diffs:
                 ctx.violation(c, "lazy session differs from the model: " + diffs[0], found_input=False,
@@ -715,6 +826,219 @@ def lazy_input_one(ctx, case):
                 ctx.violation(case, f"task graph edges {sorted(edges)} are not the producer-consumer pairs {sorted(want_edges)} ({wrap})")
 
 
+# ------------------------------------------------------------------------------------------------ several pipelines in one block
+FOREIGN_CORPUS = [
+    # two lazy pipelines with the same output name and root arguments in one block (the block's cache was keyed by output name and root
+    # arguments only: fixed); an eager pipeline in the block (it used the task graph's cache: fixed)
+    {"stream": "foreign", "funcs": [FA0 := {"name": "fa", "params": [["x", "x"]], "outputs": ["a"], "defaults": [], "bound": []}],
+     "out": "a", "kw": [["x", kwval("x")]], "b_lazy": True, "seq": ["A", "B"]},
+    {"stream": "foreign", "funcs": [FA0], "out": "a", "kw": [["x", kwval("x")]], "b_lazy": False, "seq": ["B", "A"]},
+    {"stream": "foreign", "funcs": [FA0], "out": "a", "kw": [["x", kwval("x")]], "b_lazy": False, "seq": ["A", "B"]},
+]
+
+
+def has_lazy(v):
+    if isinstance(v, _LazyFunction):
+        return True
+    if isinstance(v, Term):
+        return any(has_lazy(x) for x in v.args)
+    if isinstance(v, (list, tuple)):
+        return any(has_lazy(x) for x in v)
+    return False
+
+
+def foreign_one(ctx, case):
+    """Pipeline A (lazy) and pipeline B (the same DAG with other functions; lazy or eager) called in ONE construct_dag() block with the
+    same output name and arguments: each returns what it returns alone."""
+    desc = {"funcs": case["funcs"]}
+    desc_b = {"funcs": [dict(f, name="g" + f["name"]) for f in case["funcs"]]}
+    out = case["out"] if isinstance(case["out"], str) else tuple(case["out"])
+    kw = {k: terms.dec(v) for k, v in case["kw"]}
+    ctx.count(f"foreign:{'lazy' if case['b_lazy'] else 'eager'}")
+    try:
+        pa, la = pipegen.build(desc, lazy=True)
+        pb, lb = pipegen.build(desc_b, lazy=case["b_lazy"])
+        want = {"A": terms.enc(pipegen.quiet(pipegen.build(desc)[0], out, **kw)), "B": terms.enc(pipegen.quiet(pipegen.build(desc_b)[0], out, **kw))}
+    except Exception as e:  # noqa: BLE001
+        ctx.skip(f"foreign: construction / eager reference: {exc_enum(e)}")
+        return
+    ctx.record(case, True)
+    objs = []
+    try:
+        with construct_dag():
+            for who in case["seq"]:
+                objs.append((who, pipegen.quiet(pa if who == "A" else pb, out, **kw)))
+    except Exception as e:  # noqa: BLE001
+        ctx.violation(case, f"a call inside a construct_dag() block in which two pipelines are called raised {exc_enum(e)}", impl={"err": exc_enum(e)})
+        return
+    if la.names() or (case["b_lazy"] and lb.names()):
+        ctx.violation(case, f"functions {la.names() + lb.names()} of a lazy pipeline were invoked before evaluate()")
+        return
+    for who, r in objs:
+        lazy = who == "A" or case["b_lazy"]
+        if lazy and not isinstance(r, _LazyFunction):
+            ctx.violation(case, f"a lazy pipeline returned a {type(r).__name__}, not a deferred object, in a construct_dag() block in which "
+                                f"another pipeline with the same output names was called", impl={"type": type(r).__name__}, key="foreign-not-deferred")
+            return
+        if not lazy and has_lazy(r):
+            ctx.violation(case, "an eager pipeline called inside construct_dag() returned a deferred object (or a value built from one)",
+                          impl={"value": repr(r)[:200]}, key="foreign-eager-deferred")
+            return
+        try:
+            v = terms.enc(pipegen.quiet(r.evaluate) if lazy else r)
+        except Exception as e:  # noqa: BLE001
+            ctx.violation(case, f"evaluate() raised {exc_enum(e)}", impl={"err": exc_enum(e)})
+            return
+        if v != want[who]:
+            ctx.violation(case, f"pipeline {who}: {'evaluate()' if lazy else 'the eager call'} differs from what the pipeline returns alone: another "
+                                f"pipeline called in the same construct_dag() block shares its output names and arguments",
+                          impl={"value": v}, model={"value": want[who]}, key="foreign-value")
+            return
+    for log, name in ((la, "A"), (lb, "B")):
+        if (name == "A" or case["b_lazy"]) and len(set(log.names())) != len(log.names()):
+            ctx.violation(case, f"pipeline {name}: functions invoked more than once over the block's objects: {log.names()}")
+            return
+
+
+def check_foreign(ctx, rng, n):
+    todo = [copy.deepcopy(c) for c in FOREIGN_CORPUS]
+    for _ in range(n):
+        try:
+            desc = pipegen.gen_dag(rng, max_funcs=rng.choice([1, 2, 3, 4]))
+            p, _ = pipegen.build(desc)
+            out = rng.choice(pipegen.all_outputs(desc))
+            kw = [[k, kwval(k)] for k in p.root_args(out)]
+        except Exception as e:  # noqa: BLE001
+            ctx.skip(f"foreign generator: {exc_enum(e)}")
+            continue
+        todo.append({"stream": "foreign", "funcs": desc["funcs"], "out": out, "kw": kw, "b_lazy": rng.random() < 0.5,
+                     "seq": [rng.choice("AB") for _ in range(rng.choice([2, 3, 4]))]})
+    for case in todo:
+        foreign_one(ctx, case)
+
+
+# ------------------------------------------------------------------------------------------------ other entry points (mostly crash-only)
+@__import__("dataclasses").dataclass
+class DC:
+    u: object
+
+
+def misc_one(ctx, case):
+    """`Pipeline.func`, `run(full_output=True)` (promised: deferred, equal to the eager result after evaluate(), nothing invoked before);
+    `Pipeline.map` of a lazy pipeline, a NestedPipeFunc inside a lazy pipeline, `evaluate_lazy` on containers of containers
+    (crash-only: no exception; lists / tuples / dicts / sets are rebuilt with the values, other containers are handed over as they are)."""
+    kind = case["kind"]
+    ctx.count(f"misc:{kind}")
+    if kind in ("func", "full"):
+        desc = {"funcs": case["funcs"]}
+        kw = {k: terms.dec(v) for k, v in case["kw"]}
+        try:
+            pl, log = pipegen.build(desc, lazy=True)
+            pe, _ = pipegen.build(desc)
+            if kind == "func":
+                want = terms.enc(pipegen.quiet(pe.func(case["out"]), **kw))
+            else:
+                want = {str(k): terms.enc(v) for k, v in pipegen.quiet(pe.run, case["out"], full_output=True, kwargs=kw).items()}
+        except Exception as e:  # noqa: BLE001
+            ctx.skip(f"misc: eager reference: {exc_enum(e)}")
+            return
+        ctx.record(case, True)
+        try:
+            if kind == "func":
+                r = pipegen.quiet(pl.func(case["out"]), **kw)
+                pre = log.names()
+                ok_type = isinstance(r, _LazyFunction)
+                got = terms.enc(pipegen.quiet(r.evaluate)) if ok_type else None
+                pipegen.quiet(r.evaluate) if ok_type else None
+            else:
+                full = pipegen.quiet(pl.run, case["out"], full_output=True, kwargs=kw)
+                pre = log.names()
+                ok_type = all(isinstance(v, _LazyFunction) for k, v in full.items() if k not in kw)
+                got = {str(k): terms.enc(pipegen.quiet(v.evaluate) if isinstance(v, _LazyFunction) else v) for k, v in full.items()}
+        except Exception as e:  # noqa: BLE001
+            ctx.violation(case, f"lazy pipeline through {kind}: raised {exc_enum(e)} where the eager pipeline returns", impl={"err": exc_enum(e)})
+            return
+        if pre:
+            ctx.violation(case, f"functions {pre} invoked before evaluate() ({kind})")
+        elif not ok_type:
+            ctx.violation(case, f"a lazy pipeline's {kind} returned a value that is not deferred")
+        elif got != want:
+            ctx.violation(case, f"evaluate() differs from the eager result ({kind})", impl={"value": got}, model={"value": want})
+        elif len(set(log.names())) != len(log.names()):
+            ctx.violation(case, f"functions invoked more than once ({kind}): {log.names()}")
+        return
+    ctx.record(case, False)
+    log = []
+
+    def src(x):
+        log.append("src")
+        return Term("src", (("x", x),))
+
+    def use(a):
+        log.append("use")
+        return Term("use", (("a", terms.freeze(a) if not isinstance(a, Term) else a),))
+
+    try:
+        if kind == "map":
+            def dbl(x):
+                return Term("dbl", (("x", x),))
+
+            def tot(y):
+                return Term("tot", (("y", terms.freeze(list(y))),))
+            mk = lambda lazy: pipegen.quiet(Pipeline, [PipeFunc(dbl, "y", mapspec="x[i] -> y[i]"), PipeFunc(tot, "s")], lazy=lazy)  # noqa: E731
+            rl = pipegen.quiet(mk(True).map, {"x": [1, 2, 3]}, parallel=False, storage="dict", show_progress=False)
+            re_ = pipegen.quiet(mk(False).map, {"x": [1, 2, 3]}, parallel=False, storage="dict", show_progress=False)
+            if terms.enc(rl["s"].output) != terms.enc(re_["s"].output) or has_lazy(rl["s"].output):
+                ctx.violation(case, "Pipeline.map of a lazy pipeline differs from the eager pipeline's map")
+        elif kind == "nested":
+            from pipefunc import NestedPipeFunc
+            mk = lambda lazy: pipegen.quiet(Pipeline, [NestedPipeFunc([PipeFunc(src, "a"), PipeFunc(use, "b")], output_name="b"),  # noqa: E731
+                                                        PipeFunc(lambda b: Term("top", (("b", b),)), "o")], lazy=lazy)
+            want = mk(False)("o", x=1)
+            log.clear()
+            r = mk(True)("o", x=1)
+            pre = list(log)
+            got = pipegen.quiet(r.evaluate)
+            pipegen.quiet(r.evaluate)
+            if pre or got != want or sorted(log) != ["src", "use"]:
+                ctx.violation(case, f"lazy pipeline with a NestedPipeFunc: invoked before evaluate {pre}, calls {log}, equal to eager: {got == want}")
+        else:  # containers of containers
+            p1 = pipegen.quiet(Pipeline, [PipeFunc(src, "s")], lazy=True)
+            l1, l2 = p1("s", x=1), p1("s", x=2)
+            v1, v2 = Term("src", (("x", 1),)), Term("src", (("x", 2),))
+            mk = {"dict-of-lists": lambda a, b: {"k": [a, 7], "m": [b]}, "set": lambda a, b: {a, 3}, "tuple-in-list": lambda a, b: [(a, b), [a]],
+                  "list-in-dict-in-tuple": lambda a, b: ({"k": [a, [b]]}, 1),
+                  "namedtuple": lambda a, b: NT(a, 2), "defaultdict": lambda a, b: collections.defaultdict(list, {"k": [a]}),
+                  "dataclass": lambda a, b: DC(a), "frozenset": lambda a, b: frozenset({a}), "deque": lambda a, b: collections.deque([a])}[case["wrap"]]
+            got = pflazy.evaluate_lazy(mk(l1, l2))
+            pflazy.evaluate_lazy(mk(l1, l2))
+            if case["wrap"] in ("dict-of-lists", "set", "tuple-in-list", "list-in-dict-in-tuple") and got != mk(v1, v2):
+                ctx.violation(case, f"evaluate_lazy on a {case['wrap']} of deferred objects is not the container of their values",
+                              impl={"value": repr(got)}, model={"value": repr(mk(v1, v2))})
+            elif log.count("src") > 2:
+                ctx.violation(case, f"evaluate_lazy evaluated a deferred object more than once: {log}")
+    except Exception as e:  # noqa: BLE001
+        ctx.violation(case, f"{kind} {case.get('wrap', '')}: raised {exc_enum(e)}", impl={"err": exc_enum(e), "msg": str(e)[:200]})
+
+
+def check_misc(ctx, rng, n):
+    todo = [{"stream": "misc", "kind": "map"}, {"stream": "misc", "kind": "nested"}]
+    todo += [{"stream": "misc", "kind": "containers", "wrap": w} for w in
+             ["dict-of-lists", "set", "tuple-in-list", "list-in-dict-in-tuple", "namedtuple", "defaultdict", "dataclass", "frozenset", "deque"]]
+    for _ in range(n):
+        try:
+            desc = pipegen.gen_dag(rng, max_funcs=rng.choice([1, 2, 3, 4, 5]))
+            p, _ = pipegen.build(desc)
+            out = rng.choice(pipegen.all_outputs(desc))
+            kw = [[k, kwval(k)] for k in p.root_args(out)]
+        except Exception as e:  # noqa: BLE001
+            ctx.skip(f"misc generator: {exc_enum(e)}")
+            continue
+        todo.append({"stream": "misc", "kind": rng.choice(["func", "full"]), "funcs": desc["funcs"], "out": out, "kw": kw})
+    for case in todo:
+        misc_one(ctx, case)
+
+
 # ------------------------------------------------------------------------------------------------ corpus / entry points
 FA = {"name": "fa", "params": [["x", "x"]], "outputs": ["a"], "defaults": [], "bound": []}
 FB = {"name": "fb", "params": [["a", "a"], ["y", "y"]], "outputs": ["b", "c"], "defaults": [["y", {"s": "dy"}]], "bound": []}
@@ -737,23 +1061,52 @@ CORPUS: list = [
              {"op": "eval", "h": 1}, {"op": "eval", "h": 0}]},
     {"funcs": [FA, FB, FD], "cache": {"cache_type": "simple", "cached": []},
      "ops": [{"op": "call", "out": "b", "kw": KX}, {"op": "enter"}, {"op": "call", "out": "b", "kw": KX}, {"op": "exit"}, {"op": "eval", "h": 1}]},
+    # lazy x hybrid / disk / implicit LRU cache, cache=True everywhere, outside any block, repeated requests: nothing may run before
+    # evaluate() (seeded change C18-s2-B: update_cache evaluated the deferred object to time it); the later requests come from the cache
+    {"funcs": [FA, FB, FD], "cache": {"cache_type": "hybrid", "cached": ["fa", "fb", "fd"]},
+     "ops": [{"op": "call", "out": "d", "kw": KX}, {"op": "call", "out": "d", "kw": KX}, {"op": "eval", "h": 1}, {"op": "call", "out": "b", "kw": KX},
+             {"op": "eval", "h": 0}, {"op": "eval", "h": 2}]},
+    {"funcs": [FA, FB, FD], "cache": {"cache_type": "disk", "cached": ["fa", "fb"]},
+     "ops": [{"op": "call", "out": "d", "kw": KX}, {"op": "eval", "h": 0}, {"op": "call", "out": "d", "kw": KX}, {"op": "eval", "h": 1}]},
+    {"funcs": [FA, FB, FD], "cache": {"cache_type": None, "cached": ["fb"]},
+     "ops": [{"op": "enter"}, {"op": "call", "out": "c", "kw": KX}, {"op": "exit"}, {"op": "call", "out": "c", "kw": KX}, {"op": "call", "out": "b", "kw": KX},
+             {"op": "eval", "h": 2}, {"op": "eval", "h": 0}, {"op": "eval", "h": 1}]},
+    # different keyword values, and a supplied intermediate, inside one block: equal keys share, other keys and key-less calls do not
+    {"funcs": [FA, FB, FD], "ops": [{"op": "enter"}, {"op": "call", "out": "b", "kw": KX}, {"op": "call", "out": "b", "kw": [["x", {"s": "kw2:x"}]]},
+                                    {"op": "call", "out": "b", "kw": KX}, {"op": "call", "out": "d", "kw": [["a", kwval("a")]]},
+                                    {"op": "call", "out": "d", "kw": KX}, {"op": "exit"},
+                                    {"op": "eval", "h": 3}, {"op": "eval", "h": 2}, {"op": "eval", "h": 1}, {"op": "eval", "h": 4}, {"op": "eval", "h": 0}]},
     # supplied intermediate replaces its producer
     {"funcs": [FA, FB, FD], "ops": [{"op": "call", "out": "d", "kw": [["a", kwval("a")]]}, {"op": "eval", "h": 0}]},
 ]
 
 
+CACHE_TYPES = [None, "simple", "lru", "hybrid", "disk"]
+
+
 def gen_case(ctx, rng):
     desc = pipegen.gen_dag(rng, max_funcs=rng.choice([1, 2, 3, 4, 5, 6]))
     p, _ = pipegen.build(desc)
-    own_cache = rng.random() < 0.15
-    case = {"funcs": desc["funcs"], "ops": gen_ops(ctx, rng, desc, p, roots_only=own_cache)}
+    own_cache = rng.random() < 0.3
+    case = {"funcs": desc["funcs"], "ops": gen_ops(ctx, rng, desc, p)}
     if own_cache:
+        # lazy x cache_type x cache=True on none / some / all functions (inside and outside construct_dag(): the shapes above)
         names = [f["name"] for f in desc["funcs"]]
-        case["cache"] = {"cache_type": rng.choice(["simple", "lru"]), "cached": [n for n in names if rng.random() < 0.6]}
+        ct = rng.choice(CACHE_TYPES)
+        how = rng.choice(["all", "all", "some", "some", "none"]) if ct is not None else rng.choice(["all", "some"])
+        cached = names if how == "all" else [] if how == "none" else ([n for n in names if rng.random() < 0.6] or [rng.choice(names)])
+        case["cache"] = {"cache_type": ct, "cached": cached}
     return case
 
 
 def run(ctx):
+    try:
+        _run(ctx)
+    finally:
+        _cleanup_tmp()
+
+
+def _run(ctx):
     rng = ctx.rng
     cases = [copy.deepcopy(c) for c in CORPUS]
     for _ in range(ctx.n(260, 6000)):
@@ -772,6 +1125,8 @@ def run(ctx):
     check_container_inputs(ctx, rng, ctx.n(80, 1500))
     check_lazy_inputs(ctx, rng, ctx.n(40, 600))
     check_falsy_results(ctx, rng, ctx.n(30, 300))
+    check_foreign(ctx, rng, ctx.n(40, 600))
+    check_misc(ctx, rng, ctx.n(40, 600))
 
 
 def replay(ctx, case):
@@ -783,14 +1138,17 @@ def replay(ctx, case):
         except Exception as e:  # noqa: BLE001
             print("lazy:  raises", type(e).__name__, e)
         return
-    if case.get("stream") in ("lazy-input", "falsy-result"):
-        (lazy_input_one if case["stream"] == "lazy-input" else falsy_one)(ctx, case)
+    if case.get("stream") in ("lazy-input", "falsy-result", "foreign", "misc"):
+        {"lazy-input": lazy_input_one, "falsy-result": falsy_one, "foreign": foreign_one, "misc": misc_one}[case["stream"]](ctx, case)
         for v in ctx.violations:
             print("violation:", v["what"], "| implementation:", v["impl"], "| expected:", v["model"])
         if not ctx.violations:
             print("the case passes:", case)
         return
-    impl = run_session({"funcs": case["funcs"]}, case["ops"], case.get("cache"))
+    try:
+        impl = run_session({"funcs": case["funcs"]}, case["ops"], case.get("cache"))
+    finally:
+        _cleanup_tmp()
     print("implementation:", impl)
-    r = ctx.lean([{"m": "session", "a": {"funcs": case["funcs"], "ops": close_blocks(case["ops"])}}])[0]["r"]
+    r = ctx.lean([model_request(case)])[0]["r"]
     print("model:", model_session(r))
